@@ -20,93 +20,6 @@ import (
 
 // ---------------------------------------------------------------- loops
 
-// c01Loop is a natural loop: header + body blocks.
-type c01Loop struct {
-	Head *ssa.BasicBlock
-	Body map[*ssa.BasicBlock]bool
-}
-
-// c01Loops returns the natural loops of fn (loops sharing a header merged).
-func c01Loops(fn *ssa.Function) []*c01Loop {
-	byHead := map[*ssa.BasicBlock]*c01Loop{}
-	var order []*ssa.BasicBlock
-	for _, b := range fn.Blocks {
-		for _, s := range b.Succs {
-			if s.Dominates(b) { // back edge b -> s
-				l := byHead[s]
-				if l == nil {
-					l = &c01Loop{Head: s, Body: map[*ssa.BasicBlock]bool{s: true}}
-					byHead[s] = l
-					order = append(order, s)
-				}
-				var walk func(x *ssa.BasicBlock)
-				walk = func(x *ssa.BasicBlock) {
-					if l.Body[x] {
-						return
-					}
-					l.Body[x] = true
-					for _, p := range x.Preds {
-						walk(p)
-					}
-				}
-				walk(b)
-			}
-		}
-	}
-	var out []*c01Loop
-	for _, h := range order {
-		out = append(out, byHead[h])
-	}
-	return out
-}
-
-// c01InnermostLoop returns the smallest loop containing b, or nil.
-func c01InnermostLoop(loops []*c01Loop, b *ssa.BasicBlock) *c01Loop {
-	var best *c01Loop
-	for _, l := range loops {
-		if l.Body[b] && (best == nil || len(l.Body) < len(best.Body)) {
-			best = l
-		}
-	}
-	return best
-}
-
-// c01Exit is an edge leaving a loop.
-type c01Exit struct{ From, To *ssa.BasicBlock }
-
-func (l *c01Loop) exits() []c01Exit {
-	var out []c01Exit
-	for b := range l.Body {
-		for _, s := range b.Succs {
-			if !l.Body[s] {
-				out = append(out, c01Exit{b, s})
-			}
-		}
-	}
-	// deterministic order
-	for i := 0; i < len(out); i++ {
-		for j := i + 1; j < len(out); j++ {
-			if out[j].From.Index < out[i].From.Index || (out[j].From.Index == out[i].From.Index && out[j].To.Index < out[i].To.Index) {
-				out[i], out[j] = out[j], out[i]
-			}
-		}
-	}
-	return out
-}
-
-// c01EdgeCond returns the condition of the If ending `from` and the branch
-// value taken on the edge from->to; ok=false for unconditional edges.
-func c01EdgeCond(from, to *ssa.BasicBlock) (ssa.Value, bool, bool) {
-	if len(from.Instrs) == 0 {
-		return nil, false, false
-	}
-	ifi, ok := from.Instrs[len(from.Instrs)-1].(*ssa.If)
-	if !ok || from.Succs[0] == from.Succs[1] {
-		return nil, false, false
-	}
-	return ifi.Cond, from.Succs[0] == to, true
-}
-
 // ---------------------------------------------------------------- dependence
 
 // c01Stores returns the values stored into the local cell a.
@@ -179,34 +92,6 @@ func c01ConeCalls(v ssa.Value) []*ssa.Call {
 		}
 	}
 	return out
-}
-
-// c01Forward computes the set of values derived from v through + / - / phi
-// (the "accumulator" family of a byte count).
-func c01Forward(v ssa.Value) map[ssa.Value]bool {
-	seen := map[ssa.Value]bool{v: true}
-	work := []ssa.Value{v}
-	for len(work) > 0 {
-		x := work[0]
-		work = work[1:]
-		for _, r := range refs(x) {
-			switch y := r.(type) {
-			case *ssa.BinOp:
-				if y.Op == token.ADD || y.Op == token.SUB {
-					if !seen[y] {
-						seen[y] = true
-						work = append(work, y)
-					}
-				}
-			case *ssa.Phi:
-				if !seen[y] {
-					seen[y] = true
-					work = append(work, y)
-				}
-			}
-		}
-	}
-	return seen
 }
 
 // ---------------------------------------------------------------- linear forms
@@ -502,6 +387,27 @@ func c01EvalD(fn *ssa.Function, env c01Env, callDepth int) (rets [][]c01Val, ok 
 				case *ssa.Extract:
 					if t, ok := tuples[x.Tuple]; ok && x.Index < len(t) {
 						vals[x] = t[x.Index]
+					}
+				case *ssa.Lookup:
+					// lookup in a package-level map table initialised with constants and never written elsewhere
+					k := get(x.Index)
+					tbl, ok := c01MapTable(fn, x.X)
+					if !k.known() || !ok {
+						break
+					}
+					v, found := tbl[k.K.ExactString()]
+					var res c01Val
+					if found {
+						res = c01Val{K: v}
+					} else if z := c01ZeroConst(x.Type(), x.CommaOk); z != nil {
+						res = c01Val{K: z}
+					} else {
+						break
+					}
+					if x.CommaOk {
+						tuples[x] = []c01Val{res, {K: constant.MakeBool(found)}}
+					} else {
+						vals[x] = res
 					}
 				case *ssa.ChangeType:
 					if a := get(x.X); a.known() {
@@ -878,6 +784,91 @@ func c01BoundMethod(p *Prog, v ssa.Value) *ssa.Function {
 				}
 			}
 		}
+	}
+	return nil
+}
+
+// c01MapTable: m is a load of a package-level map variable of fn's package
+// whose only store is, in the package initialiser, a map built from constant
+// key/value pairs. Returns key.ExactString() -> value.
+func c01MapTable(fn *ssa.Function, m ssa.Value) (map[string]constant.Value, bool) {
+	u, ok := m.(*ssa.UnOp)
+	if !ok || u.Op != token.MUL {
+		return nil, false
+	}
+	gl, ok := u.X.(*ssa.Global)
+	if !ok || gl.Pkg == nil || fn.Pkg == nil || gl.Pkg != fn.Pkg {
+		return nil, false
+	}
+	var mk ssa.Value
+	stores := 0
+	for _, mem := range gl.Pkg.Members {
+		f, ok := mem.(*ssa.Function)
+		if !ok {
+			continue
+		}
+		fns := append([]*ssa.Function{f}, f.AnonFuncs...)
+		for _, ff := range fns {
+			allInstrs(ff, func(in ssa.Instruction) {
+				if st, ok := in.(*ssa.Store); ok && st.Addr == ssa.Value(gl) {
+					stores++
+					if ff.Name() == "init" {
+						mk = st.Val
+					}
+				}
+				// writes through the map value anywhere else
+				if mu, ok := in.(*ssa.MapUpdate); ok && ff.Name() != "init" {
+					if lu, ok := mu.Map.(*ssa.UnOp); ok && lu.X == ssa.Value(gl) {
+						stores += 100
+					}
+				}
+			})
+		}
+	}
+	if stores != 1 || mk == nil {
+		return nil, false
+	}
+	if _, ok := mk.(*ssa.MakeMap); !ok {
+		return nil, false
+	}
+	out := map[string]constant.Value{}
+	good := true
+	for _, r := range refs(mk) {
+		switch y := r.(type) {
+		case *ssa.MapUpdate:
+			k, ok1 := y.Key.(*ssa.Const)
+			v, ok2 := y.Value.(*ssa.Const)
+			if !ok1 || !ok2 || k.Value == nil || v.Value == nil {
+				good = false
+				continue
+			}
+			out[k.Value.ExactString()] = v.Value
+		case *ssa.Store, *ssa.DebugRef:
+		default:
+			good = false
+		}
+	}
+	return out, good
+}
+
+// c01ZeroConst: the zero value of a basic-typed map element as a constant.
+func c01ZeroConst(t types.Type, commaOk bool) constant.Value {
+	if commaOk {
+		if tup, ok := t.(*types.Tuple); ok && tup.Len() == 2 {
+			t = tup.At(0).Type()
+		}
+	}
+	b, ok := t.Underlying().(*types.Basic)
+	if !ok {
+		return nil
+	}
+	switch {
+	case b.Info()&types.IsString != 0:
+		return constant.MakeString("")
+	case b.Info()&types.IsInteger != 0:
+		return constant.MakeInt64(0)
+	case b.Info()&types.IsBoolean != 0:
+		return constant.MakeBool(false)
 	}
 	return nil
 }
